@@ -1,6 +1,7 @@
 (* Props_C05.v — C05: wantlist delivery self-heals after any transmission fault. Behaviour side (Client.v): first wantlist of a session is full; after a Failed report or an unacknowledged request older than 1 s the next wantlist is full and avoids that connection; the refresh timer sets send_full for every peer each 30 s. Handler side (Handler.v): see the end of the file.
    Statements restated verbatim from the proof files and closed by `exact`; nothing else is proved here. *)
 From BS Require Import Bytes Cid Proto Types Wantlist Client Client_proofs Client_proofs2 Client_proofs3 Client_proofs4 Tie_consts.
+From BS Require Import Tie_client.   (* tie lemmas: a source edit that changes what they extract breaks this file's closure *)
 Open Scope N_scope.
 
 Theorem C05_first_is_full sdh ops1 p c ops2 ch c' f es :
